@@ -6,7 +6,7 @@ WT=$(mktemp -d /tmp/mut-XXXXXX)
 rmdir "$WT"
 git -C /repo worktree add --detach "$WT" HEAD >/dev/null 2>&1 || { echo "worktree failed"; exit 2; }
 if ! git -C "$WT" apply "$PATCH"; then
-  echo "MUTANT $1: patch does not apply"; git -C /repo worktree remove --force "$WT"; exit 2
+  echo "ERROR(apply) $PID $(basename "$1"): patch does not apply to /repo HEAD"; git -C /repo worktree remove --force "$WT"; exit 2
 fi
 OUT=$(mktemp -d /tmp/mutout-XXXXXX)
 cd "$(dirname "$0")/.."
